@@ -1,0 +1,16 @@
+//go:build verif
+// +build verif
+
+package federation
+
+import "context"
+
+// VerifSyncNow performs one iteration of the schema refresh that poll runs on its
+// ticker, so that a verification harness does not have to wait for the ticker.
+func (e *Executor) VerifSyncNow(ctx context.Context) error {
+	newPlanner, schema, err := e.syncer.schemaSyncer.FetchPlannerAndSchema(ctx)
+	if err == nil && newPlanner != nil {
+		e.setPlanner(newPlanner, schema)
+	}
+	return err
+}
